@@ -1,7 +1,8 @@
 (* C02 - RPE values over exactly the selected pairs. Proofs in Evo.MetricsProofs. *)
 From Coq Require Import Reals List.
-From Evo Require Import Num Linalg LinalgR Lie LieProofs Metrics MetricsProofs Filters RpeSelect.
+From Evo Require Import Num Linalg LinalgR Lie LieProofs Metrics MetricsProofs Filters RpeSelect NpDsl MetricsTie.
 From EvoGen Require StepsC02.
+From EvoGen Require Import LieGen MetricsGen.
 Import ListNotations.
 Local Open Scope R_scope.
 
@@ -55,6 +56,18 @@ Print Assumptions C02_zero_for_same_relative_motion.
 (* CLI clause, translator tie: ordered guarded processing calls of main_rpe.rpe / main_rpe.run re-extracted from
    the CURRENT source: same preprocessing order as evo_ape, RPE on (ref, est), unit change, then both trajectories
    restricted to [0] + delta_ids and the companion arrays sliced [1:]. *)
+(* ---- translator tie: EvoGen.MetricsGen is re-translated from evo/core/metrics.py on every run ---- *)
+(* for the SE(3)-based relations the error pose RPE.rpe_base builds for a pair and its reduction in RPE.process_data,
+   as translated from the source, give the model's rpe_pair - for every number system and every angle oracle *)
+Theorem C02_translated_source_is_the_model : forall (T : Type) (ops : NumOps T) (angle_of : M3 T -> T) (rad2deg : T -> T)
+  (rel : PoseRelation) (ref est : list (Pose T)) (p : nat * nat),
+  rel <> point_distance -> rel <> point_distance_error_ratio ->
+  rpe_reduce_gen angle_of rad2deg rel
+    (rpe_base_gen (nthp ref (fst p)) (nthp ref (snd p)) (nthp est (fst p)) (nthp est (snd p)))
+  = rpe_pair angle_of rad2deg rel ref est p.
+Proof. exact (@rpe_pair_from_translated_pieces). Qed.
+Print Assumptions C02_translated_source_is_the_model.
+
 From Coq Require Import String.
 Local Open Scope string_scope.
 Theorem C02_step_order_main_rpe_rpe : StepsC02.main_rpe_rpe =
